@@ -2,6 +2,7 @@ package pdaemon
 
 import (
 	"fmt"
+	"io"
 	"os"
 	"path/filepath"
 	"strings"
@@ -97,10 +98,22 @@ func (f *flooder) writeAll(p []byte) bool {
 			select {
 			case <-f.stop:
 				// finish the current line so that the stream stays well-formed
+				// (best effort and bounded in time: a daemon that no longer drains its pipe - the very thing some
+				// cells detect - must not be able to hang the driver)
 				if i := strings.IndexByte(string(p), '\n'); i >= 0 && len(p) > 0 {
-					_ = syscall.SetNonblock(f.fd, false)
-					// best effort, bounded by the pipe: ignore errors
-					_, _ = syscall.Write(f.fd, p[:i+1])
+					rest := p[:i+1]
+					for until := time.Now().Add(2 * time.Second); len(rest) > 0 && time.Now().Before(until); {
+						n, err := syscall.Write(f.fd, rest)
+						if n > 0 {
+							rest = rest[n:]
+						}
+						if err != nil && err != syscall.EAGAIN {
+							break
+						}
+						if err == syscall.EAGAIN {
+							time.Sleep(time.Millisecond)
+						}
+					}
 				}
 				return false
 			default:
@@ -199,6 +212,19 @@ func runtimeCell(cause, load string) cellResult {
 	switch cause {
 	case "sshd-pipe-eof":
 		sw.Close()
+	case "sshd-writer-dies-mid-line-and-another-connects":
+		// the log writer dies in the middle of a line (end of stream right after an unterminated record) and a
+		// replacement connects a moment later, while the consumer of the events comes back: the end of stream
+		// that happened must still end the daemon, however busy the worker was when it happened
+		_, _ = sw.WriteString("4242 Accepted publickey for core from 10.0.0.7 port 51234 ssh2: ED25519 SHA256:qM6MXh9sUr")
+		sw.Close()
+		time.Sleep(300 * time.Millisecond)
+		if w2, err := d.openWriter(d.sshdPath, time.Second); err == nil {
+			defer w2.Close()
+		}
+		if load == "stalled-output" {
+			go func() { _, _ = io.Copy(io.Discard, outReader) }()
+		}
 	case "audit-pipe-eof":
 		if fl != nil {
 			close(fl.stop)
@@ -369,7 +395,8 @@ func runC08(run *mc.Run) int {
 	}
 	// the consumer is stopped for good (the events output is a FIFO nobody drains): line buffer and
 	// audit pipe are full and stay full; causes that do not depend on reading further audit lines
-	for _, c := range []string{"sigterm", "sshd-pipe-eof", "sigint"} {
+	judge(runtimeCell("sshd-writer-dies-mid-line-and-another-connects", "idle"))
+	for _, c := range []string{"sigterm", "sshd-pipe-eof", "sigint", "sshd-writer-dies-mid-line-and-another-connects"} {
 		if !run.Thorough() && c == "sigint" {
 			continue
 		}
@@ -397,7 +424,7 @@ func runC08(run *mc.Run) int {
 		}
 	}
 	cov := mc.Coverage{Level: "fault_enumeration", Evaluations: len(results), Distinct: len(results) - inconclusive, Exhaustive: inconclusive == 0, Samples: samples,
-		Rule:  "fault enumeration on the built binary over real FIFOs: 9 run-time causes (sshd pipe EOF, audit pipe EOF, unparsable audit line, a LOGIN record whose pid is not a number, a login the correlator rejects while the next login is already buffered, output /dev/full, output FIFO whose reader left, SIGTERM, SIGINT) x load {idle, stalled-output: the events FIFO is never drained so the line buffer and the audit pipe stay full (write end accepts no byte for >=300 ms), saturated: a writer keeps the audit FIFO full - single-record events written at full speed, >=8 MB written and the pipe found full >=50 times - flow equilibrium with the 10000-slot line buffer full}, 6 start-up causes (sshd/audit path is a regular file, a directory, missing); oracle: the process exits within 10 s of the cause, non-zero for failures. A cell whose set-up could not be reached is inconclusive (exit 0, exhaustive=false). distinct_nontrivial = conclusive cells",
+		Rule:  "fault enumeration on the built binary over real FIFOs: 10 run-time causes (sshd pipe EOF, sshd writer dying mid-line with a replacement writer connecting 300 ms later (idle and stalled-output only), audit pipe EOF, unparsable audit line, a LOGIN record whose pid is not a number, a login the correlator rejects while the next login is already buffered, output /dev/full, output FIFO whose reader left, SIGTERM, SIGINT) x load {idle, stalled-output: the events FIFO is never drained so the line buffer and the audit pipe stay full (write end accepts no byte for >=300 ms), saturated: a writer keeps the audit FIFO full - single-record events written at full speed, >=8 MB written and the pipe found full >=50 times - flow equilibrium with the 10000-slot line buffer full}, 6 start-up causes (sshd/audit path is a regular file, a directory, missing); oracle: the process exits within 10 s of the cause, non-zero for failures. A cell whose set-up could not be reached is inconclusive (exit 0, exhaustive=false). distinct_nontrivial = conclusive cells",
 		Extra: map[string]any{"cells": results, "saturated_cells_reached": sat, "inconclusive": inconclusive, "bound_s": exitBound.Seconds()}}
 	cov.Assumptions = []string{"the OS scheduler is not controlled; 10 s is the property's bounded time against observed millisecond latencies",
 		"the decisive blocking state (line buffer full, consumer gone) is also decided deterministically by C13's bubble cells"}
